@@ -38,6 +38,10 @@ func numericTypeConverterFunc[T int64 | uint64 | float64](value any) (any, error
 		bigFloat = f
 	}
 
+	// inexact is true when the string could not be represented exactly with the precision used above
+	// (e.g. "1.00000000000000000001"): such a value must not be rounded into an integer.
+	inexact := bigFloat.Acc() != big.Exact
+
 	n := *new(T)
 	switch any(n).(type) {
 	case int64:
@@ -45,7 +49,10 @@ func numericTypeConverterFunc[T int64 | uint64 | float64](value any) (any, error
 			return nil, fmt.Errorf("expected an int value, but found numeric value '%s'", bigFloat.String())
 		}
 
-		numericValue, _ := bigFloat.Int64()
+		numericValue, accuracy := bigFloat.Int64()
+		if inexact || accuracy != big.Exact {
+			return nil, fmt.Errorf("expected an int value, but found out of range or inexact numeric value '%s'", bigFloat.String())
+		}
 		return numericValue, nil
 
 	case uint64:
@@ -53,11 +60,14 @@ func numericTypeConverterFunc[T int64 | uint64 | float64](value any) (any, error
 			return nil, fmt.Errorf("expected a uint value, but found numeric value '%s'", bigFloat.String())
 		}
 
-		numericValue, _ := bigFloat.Int64()
-		if numericValue < 0 {
+		if bigFloat.Sign() < 0 {
 			return nil, fmt.Errorf("expected a uint value, but found int64 value '%s'", bigFloat.String())
 		}
-		return uint64(numericValue), nil
+		numericValue, accuracy := bigFloat.Uint64()
+		if inexact || accuracy != big.Exact {
+			return nil, fmt.Errorf("expected a uint value, but found out of range or inexact numeric value '%s'", bigFloat.String())
+		}
+		return numericValue, nil
 
 	case float64:
 		numericValue, a := bigFloat.Float64()
